@@ -132,11 +132,23 @@ pub fn install_panic_hook() {
         LAST_PANIC.with(|p| *p.borrow_mut() = Some((loc, msg)));
     }));
 }
-/// a panic site key that survives unrelated edits: crate-relative file + the text of the panicking source line (not its number)
+/// a panic site key that survives unrelated edits, reformatting included: crate-relative file + the name of the enclosing function (found by
+/// scanning the source upwards from the panicking line for `fn <name>`); the text of the line itself is only the fallback
 fn site_key(file: &str, line: u32) -> String {
     let rel = crate_relative(file);
-    let text = std::fs::read_to_string(file).ok().and_then(|s| s.lines().nth(line.saturating_sub(1) as usize).map(|l| l.trim().to_string())).unwrap_or_else(|| format!("line {line}"));
-    let text: String = text.chars().filter(|c| !c.is_whitespace()).take(70).collect();
+    let src = std::fs::read_to_string(file).unwrap_or_default();
+    let lines: Vec<&str> = src.lines().collect();
+    let idx = (line.saturating_sub(1) as usize).min(lines.len().saturating_sub(1));
+    for i in (0..=idx).rev() {
+        if lines.is_empty() { break }
+        let l = lines[i];
+        if let Some(p) = l.find("fn ") {
+            let before_ok = p == 0 || !l[..p].chars().last().map(|c| c.is_alphanumeric() || c == '_').unwrap_or(false);
+            let name: String = l[p + 3..].chars().take_while(|c| c.is_alphanumeric() || *c == '_').collect();
+            if before_ok && !name.is_empty() && !l.trim_start().starts_with("//") { return format!("{rel}#fn:{name}") }
+        }
+    }
+    let text: String = lines.get(idx).map(|l| l.chars().filter(|c| !c.is_whitespace()).take(70).collect()).unwrap_or_else(|| format!("line{line}"));
     format!("{rel}#{text}")
 }
 fn crate_relative(f: &str) -> String {
